@@ -12,6 +12,7 @@ checks on the real code.
 from __future__ import annotations
 
 import copy
+import json
 import math
 import random
 from typing import Any, Dict, List, Optional, Tuple
@@ -55,14 +56,22 @@ CLAIM = {
              "the hypothesis 0 <= pow(1/2, x) <= 1 for x >= 0 (proved for Real.rpow); Lean Float.pow was probed bit-identical to CPython's "
              "** on 2000 exponents of the form dt/half_life and is what the driver executes. Partial: key injectivity needs ids without "
              "'→' (C18_edge_key_injective_partial + C18_edge_key_collision); promotion attach weight is clamped to [-1,1], not to the "
-             "update clamp, hence the co-activation reading of boundedness for histories with promotions. Open finding: non-finite settings "
+             "update clamp, hence the co-activation reading of boundedness for histories with promotions. "
+             "Round 3: (a) settings-HISTORY cases - every history runs on ONE ctx/settings object that `gate`/`set` ops edit in place "
+             "(graph.enabled, clamp, mode, alpha, floor, half-life, threshold, top-k, pair cap, promotion settings); each call is compared with "
+             "the model under the CURRENT values and, differentially, with the same call on a fresh deep copy of the settings "
+             "(monitor settings_current_values). (b) component gel_turn drives the REAL Orchestrator.run_turn (harness/lib/turnrig.py) "
+             "with graph.enabled on worlds with 4-7 episodes / scripted T2 hits, observe_top_k below the number of hits and t2.ranking "
+             "weights that list hits away from score order; after every turn state.graph must equal the model's observe on ALL hits T2 "
+             "returned (with their scores) followed by tick(1), and the Lean monitor obsTopB (theorem C18_observe_topk_by_score) is "
+             "evaluated on the stores captured around the real gel_observe call. Open finding: non-finite settings "
              "(alpha=inf, clamp=+-inf, floor=NaN) pass the validator and produce NaN/inf weights (key C18:gel:nonfinite_cfg)."),
     "technique": "Lean 4 invariant proofs (induction over op histories, ordered-field carrier, permutation lemma via canonical sort) + exact whole-history correspondence with gel.py + Lean monitors on implementation states",
     "design_ref": "DESIGN.md §4 C18, §5 row 12",
 }
 DRIVER_MODULES = ['HGel']
 MODELLED = {
-    "clematis/engine/gel.py": ["_edge_key", "_clamp", "_ensure_graph_store", "observe_retrieval", "tick",
+    "clematis/engine/gel.py": ["_graph_cfg", "_edge_key", "_clamp", "_ensure_graph_store", "observe_retrieval", "tick",
                                "apply_merge", "apply_split", "promote_clusters", "apply_promotion"],
 }
 TRUSTED = ["modelled, not verified: CPython dict insertion order, list.sort stability, str comparison by code point; "
@@ -133,6 +142,11 @@ def resolve(cfgc: dict) -> Tuple[dict, bool, dict]:
             g = norm["graph"]
     except Exception:
         accepted = False
+    return g, accepted, model_of(g)
+
+
+def model_of(g: dict) -> dict:
+    """Resolved settings (what `_graph_cfg` + the float()/int()/str() reads produce) of a `graph` dict."""
     upd = g.get("update") or {}
     dec = g.get("decay") or {}
     pr = g.get("promotion") or {}
@@ -152,7 +166,25 @@ def resolve(cfgc: dict) -> Tuple[dict, bool, dict]:
         "topkLabel": int(pr.get("topk_label_ids", D["topk_label_ids"])),
         "attachW": float(pr.get("attach_weight", D["attach_weight"])),
     }
-    return g, accepted, m
+    return m
+
+
+def apply_set(g: dict, path: list, value: Any) -> None:
+    """In-place edit of the ONE settings object (nested section dicts are edited in place too)."""
+    d = g
+    for p_ in path[:-1]:
+        if not isinstance(d.get(p_), dict):
+            d[p_] = {}
+        d = d[p_]
+    d[path[-1]] = _num(value)
+
+
+def m_repr(m: dict) -> dict:
+    return {k: (R(v) if isinstance(v, float) else v) for k, v in m.items()}
+
+
+def m_parse(mr: dict) -> dict:
+    return {k: (F(v) if isinstance(v, str) else v) for k, v in mr.items()}
 
 
 FLOAT_KEYS = ("threshold", "alpha", "cmin", "cmax", "hl", "floor", "attachW")
@@ -394,6 +426,26 @@ class GelComp(Component):
                 d.pop(path[-1], None)
         return cfgc
 
+    SET_TABLE = [
+        (["update", "clamp_max"], [_fv(1.0), _fv(0.5), _fv(0.3), _fv(0.1), _fv(0.05)]),
+        (["update", "clamp_min"], [_fv(-1.0), _fv(-0.5), _fv(-0.1), _fv(0.0)]),
+        (["update", "mode"], ["additive", "proportional"]),
+        (["update", "alpha"], [_fv(0.02), _fv(0.3), _fv(0.6), _fv(1.0)]),
+        (["decay", "floor"], [_fv(0.0), _fv(0.01), _fv(0.05), _fv(0.1)]),
+        (["decay", "half_life_turns"], [1, 2, 10, 200]),
+        (["coactivation_threshold"], [_fv(0.0), _fv(0.2), _fv(0.5), _fv(0.9)]),
+        (["observe_top_k"], [1, 2, 3, 64]),
+        (["pair_cap_per_obs"], [0, 1, 2, 2048]),
+        (["promotion", "attach_weight"], [_fv(0.5), _fv(-0.5), _fv(0.05)]),
+        (["promotion", "label_mode"], ["lexmin", "concat_k"]),
+        (["promotion", "topk_label_ids"], [1, 2, 3]),
+        (["enabled"], [False, True, True]),
+    ]
+
+    def gen_set(self, rng: random.Random) -> list:
+        path, vals = rng.choice(self.SET_TABLE)
+        return ["set", list(path), rng.choice(vals)]
+
     def gen_items(self, rng: random.Random, ids: List[str], thr: float) -> list:
         n = rng.choice([0, 1, 2, 2, 3, 3, 4, 5, 6, 8])
         pool = [thr, thr, _ulp_up(thr), _ulp_dn(thr), 0.0, -0.0, 1.0, 0.5, 0.9, 0.9, 0.8, 0.7, math.nan, math.inf,
@@ -418,7 +470,12 @@ class GelComp(Component):
             ops.append(["gate", False])
         nops = rng.choice([2, 4, 6, 12, 25, 40])
         turn = rng.choice([None, 0, 1, 7])
+        # settings-HISTORY cases: the one settings object is edited in place between calls
+        hist = stream == "valid" and rng.random() < 0.4
         for _ in range(nops):
+            if hist and rng.random() < 0.2:
+                ops.append(self.gen_set(rng))
+                continue
             x = rng.random()
             t = turn if (turn is None or rng.random() < 0.8) else None
             if turn is not None:
@@ -489,20 +546,25 @@ class GelComp(Component):
     def impl(self, case: dict) -> Any:
         from clematis.engine import gel
         g, accepted, m = resolve(case["cfg"])
-        base_enabled = bool(g.get("enabled", False))
+        g = copy.deepcopy(g)
         state: Any = {} if case.get("state_style") == "dict" else _Obj()
-        enabled = base_enabled
+        # ONE ctx / settings object for the whole history; `gate` and `set` edit it in place
+        ctx = make_ctx(case.get("ctx_style", "dict"), g)
         out: List[dict] = []
         for idx, op in enumerate(case["ops"]):
-            gg = dict(g)
-            gg["enabled"] = enabled
-            ctx = make_ctx(case.get("ctx_style", "dict"), gg)
+            enabled = bool(g.get("enabled", False))
             pre = snap(state)
-            rec: Dict[str, Any] = {"pre": pre, "enabled": enabled}
+            rec: Dict[str, Any] = {"pre": pre, "enabled": enabled, "m": m_repr(model_of(g))}
             tag = op[0]
+            # differential: the same call on a copy of the state with a FRESH deep copy of the current settings
+            st_f = copy.deepcopy(state) if tag not in ("gate", "set") else None
+            ctx_f = make_ctx(case.get("ctx_style", "dict"), copy.deepcopy(g))
             if tag == "gate":
-                enabled = bool(op[1])
+                g["enabled"] = bool(op[1])
                 r: Any = None
+            elif tag == "set":
+                apply_set(g, op[1], op[2])
+                r = None
             elif tag == "obs":
                 items = self._mk_items(op[1], op[3] if len(op) > 3 else "tuple")
                 # differential: the same observation with the items listed in another order
@@ -548,16 +610,47 @@ class GelComp(Component):
                 raise ValueError(f"bad op {tag}")
             rec["r"] = r
             rec["s"] = snap(state)
+            if st_f is not None:
+                try:
+                    if tag == "obs":
+                        mf = gel.observe_retrieval(ctx_f, st_f, self._mk_items(op[1], op[3] if len(op) > 3 else "tuple"), turn=op[2], agent="A")
+                        rf: Any = {"k_in": mf["k_in"], "k_used": mf["k_used"], "pairs_updated": mf["pairs_updated"]}
+                    elif tag == "tick":
+                        mf = gel.tick(ctx_f, st_f, decay_dt=op[1], turn=op[2], agent="A")
+                        rf = {"decayed": mf["decayed_edges"], "dropped": mf["dropped_edges"]}
+                    elif tag == "merge":
+                        gel.apply_merge(ctx_f, st_f, _py(op[1])); rf = None
+                    elif tag == "split":
+                        gel.apply_split(ctx_f, st_f, _py(op[1])); rf = None
+                    elif tag == "ap":
+                        gel.apply_promotion(ctx_f, st_f, _py(op[1])); rf = None
+                    else:
+                        psf = gel.promote_clusters(ctx_f, st_f, copy.deepcopy(op[1]))
+                        rf = [{"cid": p["concept_id"], "label": p["label"], "members": list(p["members"]), "w": wbits(p["attach_weight"])} for p in psf]
+                        if tag == "promote":
+                            for p in psf:
+                                gel.apply_promotion(ctx_f, st_f, p)
+                    rec["fresh_same"] = (canon_state(snap(st_f)) == canon_state(rec["s"]) and rf == r)
+                except Exception as e:  # the fresh-settings run must behave like the in-use one
+                    rec["fresh_same"] = False
+                    rec["fresh_exc"] = type(e).__name__
             out.append(rec)
-        return {"trace": out, "accepted": accepted, "m": {k: (R(v) if isinstance(v, float) else v) for k, v in m.items()}}
+        return {"trace": out, "accepted": accepted, "m": m_repr(m)}
 
     # ---- model request / comparison -------------------------------------------------------------
     def request(self, case: dict) -> dict:
         _g, _acc, m = resolve(case["cfg"])
+        gcur = copy.deepcopy(_g)
         ops = []
         for op in case["ops"]:
             tag = op[0]
-            if tag == "obs":
+            if tag == "gate":
+                gcur["enabled"] = bool(op[1])
+                ops.append(["gate", bool(op[1])])
+            elif tag == "set":
+                apply_set(gcur, op[1], op[2])
+                ops.append(["cfg", model_cfg_json(model_of(gcur))])
+            elif tag == "obs":
                 ops.append(["obs", [[i, f2b(F(s))] for i, s in op[1]], op[2]])
             elif tag == "tick":
                 ops.append(["tick", op[1], op[2]])
@@ -632,36 +725,48 @@ class GelComp(Component):
         if cls != "rejected":
             # all edges: up to (excluding) the first promotion that attaches outside the update clamp
             n_all = len(trace)
+            n_set = len(trace)
             for i, op in enumerate(ops):
+                if op[0] == "set" and list(op[1]) in (["update", "clamp_min"], ["update", "clamp_max"], ["update"]):
+                    n_set = i      # the clamp itself was edited: boundedness is about one fixed pair of bounds
+                    break
+            n_all = n_set
+            for i, op in enumerate(ops[:n_set]):
                 if op[0] in ("ap", "promote") and trace[i]["enabled"]:
                     if op[0] == "ap":
                         w = promo_rec(op[1])["w"]
                     else:
-                        w = max(-1.0, min(1.0, m["attachW"])) if m["attachW"] == m["attachW"] else m["attachW"]
+                        aw = m_parse(trace[i]["m"])["attachW"] if "m" in trace[i] else m["attachW"]
+                        w = max(-1.0, min(1.0, aw)) if aw == aw else aw
                     if not (m["cmin"] <= w <= m["cmax"]):
                         n_all = i
                         break
             name = {"valid": "bounded", "clamp_excludes_zero": "bounded.clamp_excludes_zero",
                     "nonfinite_cfg": "nonfinite_cfg"}[cls]
             rq.append((name, {"c": "gel.mon", "kind": "bounded", "cfg": cj, "states": states[:n_all]}))
+            n_co = n_set
             rq.append((name if cls != "valid" else "bounded_coact",
-                       {"c": "gel.mon", "kind": "bounded_coact", "cfg": cj, "states": states}))
-        hl_ok = True
-        tsteps, osteps = [], []
+                       {"c": "gel.mon", "kind": "bounded_coact", "cfg": cj, "states": states[:n_co]}))
+        # step monitors, grouped by the settings in force at that step (the settings object may be edited in place)
+        groups: Dict[str, dict] = {}
         for op, t in zip(ops, trace):
-            if not t["enabled"]:
+            if not t["enabled"] or op[0] not in ("tick", "obs"):
                 continue
-            if op[0] == "tick" and hl_ok:
-                tsteps.append({"pre": self._edges_for_lean(t["pre"]), "post": self._edges_for_lean(t["s"]),
-                               "dt": op[1], "decayed": t["r"]["decayed"], "dropped": t["r"]["dropped"]})
-            if op[0] == "obs":
-                osteps.append({"pre": self._edges_for_lean(t["pre"]), "post": self._edges_for_lean(t["s"]),
-                               "items": [[i, f2b(F(s))] for i, s in op[1]],
-                               "k_in": t["r"]["k_in"], "k_used": t["r"]["k_used"], "pairs_updated": t["r"]["pairs_updated"]})
-        if tsteps:
-            rq.append(("nonfinite_cfg" if nonfin else "tick_spec", {"c": "gel.mon", "kind": "tick", "cfg": cj, "steps": tsteps}))
-        if osteps:
-            rq.append(("nonfinite_cfg" if nonfin else "observe_spec", {"c": "gel.mon", "kind": "obs", "cfg": cj, "steps": osteps}))
+            cjs = model_cfg_json(m_parse(t["m"])) if "m" in t else cj
+            grp = groups.setdefault(json.dumps(cjs, sort_keys=True), {"cfg": cjs, "tick": [], "obs": []})
+            if op[0] == "tick":
+                grp["tick"].append({"pre": self._edges_for_lean(t["pre"]), "post": self._edges_for_lean(t["s"]),
+                                    "dt": op[1], "decayed": t["r"]["decayed"], "dropped": t["r"]["dropped"]})
+            else:
+                grp["obs"].append({"pre": self._edges_for_lean(t["pre"]), "post": self._edges_for_lean(t["s"]),
+                                   "items": [[i, f2b(F(s))] for i, s in op[1]],
+                                   "k_in": t["r"]["k_in"], "k_used": t["r"]["k_used"], "pairs_updated": t["r"]["pairs_updated"]})
+        for grp in groups.values():
+            if grp["tick"]:
+                rq.append(("nonfinite_cfg" if nonfin else "tick_spec", {"c": "gel.mon", "kind": "tick", "cfg": grp["cfg"], "steps": grp["tick"]}))
+            if grp["obs"]:
+                rq.append(("nonfinite_cfg" if nonfin else "observe_spec", {"c": "gel.mon", "kind": "obs", "cfg": grp["cfg"], "steps": grp["obs"]}))
+                rq.append(("nonfinite_cfg" if nonfin else "observe_topk_by_score", {"c": "gel.mon", "kind": "obstop", "cfg": grp["cfg"], "steps": grp["obs"]}))
         return rq
 
     def monitors(self, case, impl_out):
@@ -669,13 +774,17 @@ class GelComp(Component):
         for i, (op, t) in enumerate(zip(case["ops"], impl_out["trace"])):
             tag = op[0]
             pre, post = t["pre"], t["s"]
-            if not t["enabled"] and tag != "gate":
+            if not t["enabled"] and tag not in ("gate", "set"):
                 ok = pre == post and t["r"] in (None, [], {"k_in": 0, "k_used": 0, "pairs_updated": 0}, {"decayed": 0, "dropped": 0}) \
                     and t.get("ret") in (None, [0, wbits(0.0), 0], [0, 0], ["", 0])
                 res.append(("gate_off_identity", ok, f"op {i} {tag} with graph.enabled=false: state {pre} -> {post}, returned {t['r']} {t.get('ret')}"))
                 continue
-            if tag == "gate":
-                res.append(("gate_off_identity", pre == post, f"op {i} gate toggle changed state"))
+            if tag not in ("gate", "set") and "fresh_same" in t:
+                res.append(("settings_current_values", bool(t["fresh_same"]),
+                            f"op {i} {tag}: the call on the in-use settings object (edited in place earlier in the history) differs from "
+                            f"the same call with a fresh deep copy of the current settings {t['m']}"))
+            if tag in ("gate", "set"):
+                res.append(("gate_off_identity", pre == post, f"op {i} {tag}: editing the settings changed the store"))
             elif tag == "obs":
                 res.append(("observe_perm_invariant", bool(t.get("perm_same")), f"op {i}: observing a permutation of {op[1]} gave a different store/metrics"))
             elif tag in ("merge", "split"):
@@ -732,6 +841,12 @@ class GelComp(Component):
             t.add("cfg:extreme_finite")
         for op, tr in zip(case["ops"], impl_out["trace"]):
             tag = op[0]
+            if "m" in tr:
+                m = m_parse(tr["m"])
+            if tag == "set":
+                t.add("cfg_history:set_in_place")
+            if tag == "gate":
+                t.add("cfg_history:gate_in_place")
             if not tr["enabled"]:
                 t.add("gate_off")
                 continue
@@ -802,10 +917,247 @@ class GelComp(Component):
                     yield dict(case, ops=ops[:i] + [new] + ops[i + 1:])
 
 
-COMPONENTS = [GelComp()]
+# --------------------------------------------------------------------------------------------
+# turn level: the orchestrator -> GEL hand-off, through the REAL run_turn (harness/lib/turnrig.py)
+# --------------------------------------------------------------------------------------------
+
+WORDS = ["alpha", "beta", "gamma", "delta", "zeta", "omega", "kappa"]
+TS_POOL = ["2024-01-05T00:00:00Z", "2024-03-01T00:00:00Z", "2024-06-01T00:00:00Z", "2024-09-15T00:00:00Z",
+           "2024-11-01T00:00:00Z", "2024-12-01T00:00:00Z", "2024-12-30T00:00:00Z"]
 
 
-def _still_fails(comp: GelComp, case: dict, monitor: str) -> bool:
+def _enc(x: Any) -> Any:
+    """floats -> 'f:<repr>' strings (cases must survive the replay file's float canonicalisation)."""
+    if isinstance(x, float):
+        return _fv(x)
+    if isinstance(x, dict):
+        return {k: _enc(v) for k, v in x.items()}
+    if isinstance(x, list):
+        return [_enc(v) for v in x]
+    return x
+
+
+def _dec(x: Any) -> Any:
+    if isinstance(x, dict):
+        return {k: _dec(v) for k, v in x.items()}
+    if isinstance(x, list):
+        return [_dec(v) for v in x]
+    return _num(x)
+
+
+def _edges_sorted(s: Any) -> list:
+    return sorted((s or {"edges": []})["edges"], key=lambda e: e["k"])
+
+
+class GelTurnComp(Component):
+    """Real `Orchestrator.run_turn` with graph.enabled on small worlds: after every turn `state.graph` must be what
+    the Gel model's `observe` gives on ALL hits T2 returned (with their scores) followed by the orchestrator's tick."""
+    name = "gel_turn"
+    budget = {"quick": 150, "thorough": 2500, "search": 600}
+    scratch: Any = None
+
+    def __init__(self) -> None:
+        self._memo: Dict[str, Any] = {}
+
+    # ---- generator --------------------------------------------------------------------------
+    def gen(self, rng: random.Random, i: int) -> dict:
+        graph = {"enabled": True,
+                 "coactivation_threshold": rng.choice([0.0, 0.0, 0.1, 0.3]),
+                 "observe_top_k": rng.choice([1, 2, 2, 2, 3]),
+                 "pair_cap_per_obs": rng.choice([1, 2, 2048, 2048]),
+                 "update": {"mode": rng.choice(["additive", "proportional"]), "alpha": rng.choice([0.3, 0.02, 0.6]),
+                            "clamp_min": -1.0, "clamp_max": rng.choice([1.0, 0.5])},
+                 "decay": {"half_life_turns": rng.choice([1, 2, 200]), "floor": rng.choice([0.0, 0.0, 0.05])}}
+        stub = rng.random() < 0.4
+        nturn = rng.choice([1, 2, 3])
+        if stub:
+            spec = {"cfg": {"graph": graph}, "now": "2025-01-01T00:00:00Z"}
+            turns = []
+            ids = ["a_hi", "b_hi", "c_lo", "d_lo", "e_mid", "f_mid"]
+            for _ in range(nturn):
+                n = rng.choice([3, 4, 4, 5, 6])
+                chosen = rng.sample(ids, n)
+                base = {"a_hi": 0.9, "b_hi": 0.8, "c_lo": 0.5, "d_lo": 0.45, "e_mid": 0.7, "f_mid": 0.7}
+                hits = [[h, R(rng.choice([base[h], base[h], round(rng.random(), 2), graph["coactivation_threshold"]]))] for h in chosen]
+                order = rng.choice(["asc", "shuffle", "shuffle", "desc"])
+                if order == "asc":
+                    hits.sort(key=lambda h: F(h[1]))
+                elif order == "desc":
+                    hits.sort(key=lambda h: -F(h[1]))
+                else:
+                    rng.shuffle(hits)
+                turns.append({"text": rng.choice(WORDS), "hits": hits})
+            return {"spec": _enc(spec), "turns": turns}
+        neps = rng.choice([4, 5, 5, 6, 7])
+        eps = []
+        for j in range(neps):
+            ep = {"id": f"e{j}", "text": " ".join(rng.sample(WORDS, rng.choice([1, 2, 3]))), "owner": "a1",
+                  "ts": rng.choice(TS_POOL)}
+            if rng.random() < 0.5:
+                ep["aux"] = {"importance": rng.choice([0.0, 0.2, 0.9, 1.0])}
+            eps.append(ep)
+        ranking = rng.choice([{"alpha_sim": 0.2, "beta_recency": 1.0, "gamma_importance": 0.0},
+                              {"alpha_sim": 0.0, "beta_recency": 1.0, "gamma_importance": 0.5},
+                              {"alpha_sim": 0.1, "beta_recency": 0.0, "gamma_importance": 1.0},
+                              {"alpha_sim": 0.5, "beta_recency": 0.5, "gamma_importance": 0.5},
+                              {"alpha_sim": 1.0, "beta_recency": 0.0, "gamma_importance": 0.0}])
+        spec = {"cfg": {"graph": graph, "t2": {"ranking": ranking, "sim_threshold": -1.0}},
+                "now": "2025-01-01T00:00:00Z", "episodes": eps}
+        turns = [{"text": " ".join(rng.sample(WORDS, rng.choice([1, 2]))), "hits": None} for _ in range(nturn)]
+        return {"spec": _enc(spec), "turns": turns}
+
+    # ---- implementation -----------------------------------------------------------------------
+    def impl(self, case: dict) -> Any:
+        import importlib
+        import shutil
+        import tempfile
+        from pathlib import Path
+        from harness.lib import turnrig as TR
+        root = Path(tempfile.mkdtemp(prefix="gelturn_", dir=str(self.scratch) if self.scratch else None))
+        orch = importlib.import_module("clematis.engine.orchestrator")
+        corem = importlib.import_module("clematis.engine.orchestrator.core")
+        had_t2 = "t2_semantic" in vars(orch)
+        real_t2 = getattr(orch, "t2_semantic")
+        real_obs = getattr(corem, "gel_observe")
+        cap: Dict[str, Any] = {}
+
+        def t2w(*a, **k):
+            r = real_t2(*a, **k)
+            cap["hits"] = [[str(getattr(h, "id", None) if not isinstance(h, dict) else h.get("id")),
+                            R(getattr(h, "score", 0.0) if not isinstance(h, dict) else h.get("score", 0.0))]
+                           for h in (getattr(r, "retrieved", []) or [])]
+            return r
+
+        def obsw(ctx, state, items, *a, **k):
+            cap["pre_obs"] = snap(state)
+            try:
+                cap["handed"] = len(list(items))
+            except Exception:
+                cap["handed"] = None
+            r = real_obs(ctx, state, items, *a, **k)
+            cap["post_obs"] = snap(state)
+            cap["obs"] = {kk: r.get(kk) for kk in ("k_in", "k_used", "pairs_updated")}
+            return r
+
+        out: List[dict] = []
+        try:
+            w = TR.build_world(root, _dec(case["spec"]))
+            m = model_of(w.cfg_plain.get("graph") or {})
+            setattr(orch, "t2_semantic", t2w)
+            setattr(corem, "gel_observe", obsw)
+            for ti, t in enumerate(case["turns"]):
+                cap.clear()
+                beh = None
+                if t.get("hits") is not None:
+                    beh = {"t2": TR.stub({"retrieved": [{"id": h, "score": F(sc), "text": ""} for h, sc in t["hits"]], "metrics": {}})}
+                run = TR.run_turn(w, t.get("text", ""), ti + 1, beh)
+                hits = t["hits"] if t.get("hits") is not None else cap.get("hits", [])
+                tick = None
+                for rec in run.logs.get("gel", []):
+                    if rec.get("event") == "edge_decay":
+                        tick = {"decayed": rec.get("decayed_edges"), "dropped": rec.get("dropped_edges")}
+                out.append({"hits": [list(h) for h in hits], "handed": cap.get("handed"), "obs": cap.get("obs"),
+                            "pre_obs": cap.get("pre_obs"), "post_obs": cap.get("post_obs"), "tick": tick,
+                            "s": snap(w.state), "raised": run.raised, "turn": ti + 1})
+        finally:
+            if had_t2:
+                setattr(orch, "t2_semantic", real_t2)
+            else:
+                try:
+                    delattr(orch, "t2_semantic")
+                except AttributeError:
+                    pass
+            setattr(corem, "gel_observe", real_obs)
+            shutil.rmtree(root, ignore_errors=True)
+        res = {"turns": out, "m": m_repr(m)}
+        self._memo[json.dumps(case, sort_keys=True)] = res
+        return res
+
+    def _impl_cached(self, case: dict) -> Any:
+        key = json.dumps(case, sort_keys=True)
+        if key not in self._memo:
+            self.impl(case)
+        return self._memo[key]
+
+    # ---- model request: observe on ALL hits T2 returned, then the orchestrator's tick(1) ----------------
+    def request(self, case: dict) -> dict:
+        io = self._impl_cached(case)
+        ops = []
+        for t in io["turns"]:
+            ops.append(["obs", [[h, f2b(F(sc))] for h, sc in t["hits"]], t["turn"]])
+            ops.append(["tick", 1, t["turn"]])
+        return {"c": "gel", "cfg": model_cfg_json(m_parse(io["m"])), "ops": ops}
+
+    def compare(self, case, impl_out, model_out):
+        if not (isinstance(impl_out, dict) and "turns" in impl_out) or not isinstance(model_out, list):
+            return Component.compare(self, case, impl_out, model_out)
+        a = [{"raised": t["raised"], "obs": t["obs"], "tick": t["tick"], "edges": _edges_sorted(t["s"])} for t in impl_out["turns"]]
+        b = []
+        for i in range(len(impl_out["turns"])):
+            o, k = model_out[2 * i], model_out[2 * i + 1]
+            b.append({"raised": None, "obs": o.get("r"), "tick": k.get("r"),
+                      "edges": _edges_sorted(_nan_norm(k.get("s")))})
+        return Component.compare(self, case, a, b)
+
+    # ---- monitors ---------------------------------------------------------------------------------
+    def monitor_requests(self, case, impl_out) -> List[Tuple[str, dict]]:
+        cj = model_cfg_json(m_parse(impl_out["m"]))
+        el = GelComp._edges_for_lean
+        top, ticks, finals = [], [], []
+        for t in impl_out["turns"]:
+            if t["obs"] is not None and t["pre_obs"] is not None:
+                top.append({"pre": el(t["pre_obs"]), "post": el(t["post_obs"]),
+                            "items": [[h, f2b(F(sc))] for h, sc in t["hits"]]})
+                if t["tick"] is not None:
+                    ticks.append({"pre": el(t["post_obs"]), "post": el(t["s"]), "dt": 1,
+                                  "decayed": t["tick"]["decayed"], "dropped": t["tick"]["dropped"]})
+            finals.append(el(t["s"]))
+        rq: List[Tuple[str, dict]] = [("canon", {"c": "gel.mon", "kind": "canon", "cfg": cj, "states": finals}),
+                                      ("bounded", {"c": "gel.mon", "kind": "bounded", "cfg": cj, "states": finals})]
+        if top:
+            rq.append(("handoff_topk_by_score", {"c": "gel.mon", "kind": "obstop", "cfg": cj, "steps": top}))
+        if ticks:
+            rq.append(("tick_spec", {"c": "gel.mon", "kind": "tick", "cfg": cj, "steps": ticks}))
+        return rq
+
+    def monitors(self, case, impl_out):
+        res = []
+        for t in impl_out["turns"]:
+            res.append(("turn_completes_and_observes", t["raised"] is None and t["obs"] is not None and t["tick"] is not None,
+                        f"turn {t['turn']}: raised={t['raised']} observe metrics={t['obs']} tick metrics={t['tick']} (graph.enabled=true)"))
+        return res
+
+    def tags(self, case, impl_out):
+        tg = set()
+        m = m_parse(impl_out["m"])
+        for t, tc in zip(impl_out["turns"], case["turns"]):
+            tg.add("stub_t2" if tc.get("hits") is not None else "real_t2")
+            hs = [(h, F(sc)) for h, sc in t["hits"]]
+            el = [x for x in hs if x[1] >= m["threshold"]]
+            k = max(0, m["topK"])
+            by_score = {h for h, _ in sorted(el, key=lambda x: (-x[1], x[0]))[:k]}
+            listed = {h for h, _ in hs[:k]}
+            if len(hs) > k:
+                tg.add("handoff:more_hits_than_top_k")
+            if by_score != listed:
+                tg.add("handoff:listing_order_differs_from_score_order")
+            if t["obs"] and t["obs"].get("pairs_updated"):
+                tg.add("handoff:pairs_updated")
+            if t["tick"] and t["tick"].get("dropped"):
+                tg.add("tick:drop")
+        return sorted(tg) or ["default"]
+
+    def shrink(self, case):
+        ts = case["turns"]
+        for i in range(len(ts) - 1, -1, -1):
+            if len(ts) > 1:
+                yield dict(case, turns=ts[:i] + ts[i + 1:])
+
+
+COMPONENTS = [GelComp(), GelTurnComp()]
+
+
+def _still_fails(comp: Any, case: dict, monitor: str) -> bool:
     from harness.core import run_driver
     io = comp.impl(case)
     for name, ok, _ in comp.monitors(case, io):
@@ -819,7 +1171,7 @@ def _still_fails(comp: GelComp, case: dict, monitor: str) -> bool:
     return False
 
 
-def _minimise_failures(ctx: Ctx, comp: GelComp) -> None:
+def _minimise_failures(ctx: Ctx, comp: Any) -> None:
     """Delta-debug the first failing case of every distinct key (what `_main` writes as replay)."""
     from harness.core import shrink_case, _canon
     seen = set()
@@ -827,19 +1179,24 @@ def _minimise_failures(ctx: Ctx, comp: GelComp) -> None:
         if f.get("component") != comp.name or f["key"] in seen:
             continue
         seen.add(f["key"])
-        n0 = len(f["case"].get("ops", []))
+        size = lambda c: len(c.get("ops", c.get("turns", [])))  # noqa: E731
+        n0 = size(f["case"])
         try:
             small = shrink_case(comp, f["case"], lambda c, m=f["monitor"]: _still_fails(comp, c, m), limit=300)
             if small is not f["case"] and _still_fails(comp, small, f["monitor"]):
                 f["case"] = small
                 f["impl"] = _canon(comp.impl(small))
-                f["detail"] = f"{f['detail'][:400]} [minimised from {n0} to {len(small.get('ops', []))} ops]"
+                f["detail"] = f"{f['detail'][:400]} [minimised from {n0} to {size(small)} ops/turns]"
         except Exception:
             pass
 
 
 def run(ctx: Ctx) -> None:
     for comp in COMPONENTS:
+        if hasattr(comp, "scratch"):
+            comp.scratch = ctx.scratch
+        if hasattr(comp, "_memo"):
+            comp._memo.clear()
         run_component(ctx, comp)
         _minimise_failures(ctx, comp)
 
